@@ -289,13 +289,56 @@ def copyfileWorkflow (P : Prim) (get : Table → Str → Mount.Entry) (tbl : Tab
 
 /-! ### the staging loop of `Job.inputs` -/
 
+/-- The DECLARED type of a field, as far as `TypeParser.contains_type` looks at it.
+    `file`: a class that is a subclass of the target (`is_subclass(type_, FileSet)`);
+    `atom`: anything without type arguments or cut short by the primitive shortcut (`int`, `str`, bare `list`,
+            `object`, `None`, `typing.Any` — for which `is_subclass(Any, FileSet)` is false);
+    `union`: `Union[…]`/`X | Y`/`Optional[X]`;  `mapping`: `dict[K, V]`, `Mapping[K, V]`;
+    `seq`: `list[T]`, `tuple[T₁, …, Tₙ]`, `Sequence[T]`; `ell` = the argument list ended in `...` (already stripped). -/
+inductive Ty
+  | file (n : Str)
+  | atom (n : Str)
+  | union (args : List Ty)
+  | mapping (k v : Ty)
+  | seq (args : List Ty) (ell : Bool)
+deriving Repr, Inhabited
+
+mutual
+/-- `TypeParser.contains_type(FileSet, type_)`: ANY type argument, at any depth. -/
+def containsType : Ty → Bool
+  | .file _ => true                          -- `if cls.is_subclass(type_, target): return True`
+  | .atom _ => false                         -- primitive shortcut / `if not type_args: return False`
+  | .union args => containsAny args          -- `for type_arg in type_args: if contains_type(...): return True`
+  | .mapping k v => containsType k || containsType v
+  | .seq args _ => containsAny args          -- trailing Ellipsis stripped, then `any(contains_type(target, a) for a in type_args)`
+def containsAny : List Ty → Bool
+  | [] => false
+  | t :: ts => containsType t || containsAny ts
+end
+
+mutual
+/-- The file classes occurring anywhere in a type. -/
+def Ty.fileLeaves : Ty → List Str
+  | .file n => [n]
+  | .atom _ => []
+  | .union args => Ty.fileLeavesL args
+  | .mapping k v => Ty.fileLeaves k ++ Ty.fileLeaves v
+  | .seq args _ => Ty.fileLeavesL args
+def Ty.fileLeavesL : List Ty → List Str
+  | [] => []
+  | t :: ts => Ty.fileLeaves t ++ Ty.fileLeavesL ts
+end
+
 structure Field where
   name : Str
-  typed : Bool      -- `TypeParser.contains_type(FileSet, fld.type)`
+  ty : Ty           -- `fld.type`
   truthy : Bool     -- `bool(value)`
   mode : Mode       -- `fld.copy_mode`
   coll : Nat        -- `fld.copy_collation`
   value : Val
+
+/-- The staging gate `TypeParser.contains_type(FileSet, fld.type)`. -/
+def Field.typed (f : Field) : Bool := containsType f.ty
 
 /-- The environment `Job.inputs` builds for field `f`: `dest_dir=self.cache_dir, mode=fld.copy_mode,
     collation=fld.copy_collation, supported_modes=self.SUPPORTED_COPY_MODES`. -/
